@@ -237,6 +237,7 @@ func c14Run(hist []int, alpha []c14msg) (sig, msg, state string) {
 	sc := &world.Scenario{Nodes: nil, NoBootTick: true, Horizon: 50, Name: "C14/history"}
 	var barrier chan string
 	var verdict *world.Violation
+	kill := false
 	sc.AfterBoot = func(w *world.World) {}
 	// reference
 	known := map[string]bool{}
@@ -267,6 +268,9 @@ func c14Run(hist []int, alpha []c14msg) (sig, msg, state string) {
 		barrier = make(chan string, 4)
 		vw, err := core.VerifBoot(w.Handler, w.Ln.Fd, w.Opts, c14Base(), func(addr string) (*redis.Info, error) {
 			if strings.HasPrefix(addr, "10.255.") {
+				if kill {
+					runtime.Goexit() // end of the history: terminate the refresh goroutine from inside (deferred close(done) runs)
+				}
 				barrier <- addr
 			}
 			return c14Info(addr)
@@ -356,14 +360,11 @@ func c14Run(hist []int, alpha []c14msg) (sig, msg, state string) {
 			sig := "refresh-loop-exits-on:" + diedOn
 			verdict = &world.Violation{Sig: sig, Msg: fmt.Sprintf("history %s: the refresh goroutine terminated, so no later update can ever be adopted", histNames(hist, alpha))}
 		}
-		// let the goroutine go: a sub-3-byte message makes the loop return on the pinned tree
+		// let the goroutine go: the next barrier probe terminates it from inside
 		if !dead {
-			core.VerifSendProbeReply([]byte("x"), done)
+			kill = true
 			core.VerifSendProbeReply(bulkNodes(line("bar", "10.255.9.9:1", "slave", "nobody", "")), done)
-			select {
-			case <-done:
-			case <-barrier:
-			}
+			<-done
 		}
 	})
 	if w.Panic != nil && verdict == nil {
